@@ -37,7 +37,8 @@ class Ctx:
         vo = rel + 'o'
         t = time.time()
         tok, tproblems = tables.regenerate()
-        if not tok:
+        tproblems = tables.problems_for(props_file, tproblems)     # a table that this property's theorems do not mention is not its concern
+        if tproblems:
             self.notes['translator_problems'] = tproblems
             src0 = open(os.path.join(COQDIR, rel)).read()
             th0 = re.findall(r'^\s*(?:Theorem|Lemma|Corollary)\s+([A-Za-z0-9_\']+)', src0, re.M)
